@@ -5522,6 +5522,9 @@ class PyCdlib:
 
                     num_bytes_to_remove += self._remove_child_from_dr(parent,
                                                                       parent_index)
+                    # (The relocation directory may have a continuation entry
+                    # of its own, for a long Rock Ridge name.)
+                    num_bytes_to_remove += self._remove_rr_ce_entry(parent)
 
                     num_bytes_to_remove += parent.get_data_length()
                     if parent.ptr is not None:
